@@ -168,11 +168,13 @@ class SymSim(mosaik_api_v3.Simulator):
     def __init__(self):
         super().__init__(copy.deepcopy(BASE_META))
 
-    def init(self, sid, time_resolution, typ='event-based'):
+    def init(self, sid, time_resolution, typ='event-based', any_inputs=False):
         self.sid = sid
         self.typ = typ
         self.meta['type'] = typ
         m = self.meta['models']['M']
+        if any_inputs:
+            m['any_inputs'] = True
         if typ == 'hybrid':
             m['trigger'] = ['it']
             m['non-persistent'] = ['oe']
@@ -204,7 +206,7 @@ class SymSim(mosaik_api_v3.Simulator):
             if last:
                 eng.assume(time + d >= until)
             return time + d
-        if last:
+        if last or self.sid in CTX.get('no_self', ()):
             return None
         if eng.flag(f'{self.sid}.self{k}'):
             return time + eng.int(f'{self.sid}.d{k}', 1)
@@ -383,9 +385,11 @@ def system(topo, cfg):
         loop = OracleLoop(eng, D=cfg.get('D', 0))
         log = []
         ref = Ref(eng, rules=rules, lazy=cfg.get('lazy', True))
+        pre = ref.prefix = cfg.get('rule_prefix', '')
         CTX.clear()
         CTX.update(eng=eng, loop=loop, K=cfg.get('K', 2), until=until, ref=ref, log=log,
                    sync=set(cfg.get('sync', ())), future_outputs=cfg.get('future_outputs', False),
+                   no_self=set(cfg.get('no_self', ())),
                    bounded_times=bool(cfg.get('cache', True) or cfg.get('debug', False)))
         outcome = None
         info = {}
@@ -415,7 +419,7 @@ def system(topo, cfg):
                     ref.on_end()
                 elif 'C05' in rules:
                     x = info.get('exc', {})
-                    eng.alarm('C05.' + outcome.split(':')[0],
+                    eng.alarm(pre + 'C05.' + outcome.split(':')[0],
                               f"run() did not complete: {outcome} {x.get('exc_msg', '')} at {x.get('where')}; pending={[(p[0], p[1]) for p in loop.pending]}",
                               {'exc': x, 'fp': ['C05', outcome, x.get('where'), x.get('exc_msg', '')[:40]]})
             finally:
